@@ -43,7 +43,7 @@ def precedence_level(node: mparser.BaseNode) -> int:
     raise MesonBugException('Unhandled node type')
 
 class AstPrinter(AstVisitor):
-    escape_trans: T.Dict[int, str] = str.maketrans({'\\': '\\\\', "'": "\\'", '\n': '\\n'})
+    escape_trans: T.Dict[int, str] = str.maketrans({'\\': '\\\\', "'": "\\'", '\n': '\\n', '\r': '\\r'})
 
     def __init__(self, indent: int = 2, arg_newline_cutoff: int = 5, update_ast_line_nos: bool = False):
         self.result = ''
